@@ -54,6 +54,9 @@ def run(ctx):
             blocks = re.split(r"={18}\n", p.stderr)
             for b in blocks:
                 if "WARNING: DATA RACE" in b:
+                    # a report counts only if the library is involved: its source files appear in the racing stacks
+                    if not re.search(r"(go\.1password\.io/spg\.|/(util|char_gen|char_sets|char_strength|word_gen|password|token)\.go:)", b):
+                        raise Undecided("the race detector reports a race inside the harness itself:\n" + b[:1500])
                     nraces += 1
                     if nraces <= 40:
                         rf.write(json.dumps(dict(op="race", g=g, text=sanitize(b))) + "\n")
